@@ -117,9 +117,16 @@ def _through_from_string(ctx, name, bench, cons, objs, expected, line, m):
             text = "vers:%s/%s" % (S.rclass(name).scheme, "|".join(str(o) for o in objs))
         except Exception:  # noqa: BLE001
             return
-        for kw in ({}, {"validate": True}, {"simplify": True}, {"simplify": True, "validate": True}):
+        # ... and the star written with something behind it (`*5`, `*1.0`: the constraint parser reads any piece that
+        # begins with `*` as the star)
+        texts = [text]
+        if "|*" in text or text.endswith("/*") is False:
+            texts.append(text.replace("|*", "|*5", 1) if "|*" in text else text)
+            texts.append(text.replace("|*", "|*1.0", 1) if "|*" in text else text)
+        for text in dict.fromkeys(texts):
+          for kw in ({}, {"validate": True}, {"simplify": True}, {"simplify": True, "validate": True}):
             got = B.res_bool(lambda: VersionRange.from_string(text, **kw) is not None)
-            ctx.count(stream + ":star", key=(line, tuple(sorted(kw))), nontrivial=True)
+            ctx.count(stream + ":star", key=(line, text, tuple(sorted(kw))), nontrivial=True)
             if got != "err:ValueError" and not (got == "ok:true" and all(c == "star" for c, _ in cons)):
                 d = B.describe(bench, cons, m, objs=objs)
                 d.update({"text": text, "flags": kw, "clause": "a star among other constraints: from_string %s, expected a ValueError" % got,
